@@ -51,27 +51,27 @@ PROPS = {
         explanation='sequence/counter accounting per Inv state; counter bound for all histories with u8 limits; notification builder',
     ),
     'C08': dict(
-        lean='CoapLite.Props.C08', domains=['BLK'], rule='Sessions against the real BlockHandler under the deterministic fake clock, full comparison of every outcome, reply dump, request payload and (hook) cached state: Block2 downloads of every body length 0..3*blocksize+1 for sizes 16/32/64 x client preference none/equal/larger, lengths {0,15,16,17,1023,1024,1025,5000(20000)} x budgets 38..1280 x preferences incl. mid-transfer reduction, budgets in a band of +-3 around overhead+{12,28,32,44}+2^j for 4 request shapes x 3 reply option sets; Block1 uploads at every size exponent x lengths around block multiples x duplicate patterns x abandoned prefixes; too-large requests; 8000 (60000) hostile request sequences of length 1..6 (option bloat to 1400 B, block numbers up to 65535, szx 0..7, malformed block bytes, all message types, budgets 0..5000, large replies, pre-set Block2); all interleavings of 2 transfers x 4 exchanges differing in one key component; cache lifetime at ttl-1/ttl/ttl+1/4*ttl with 0..25 (2000) intervening keys. Every session is non-trivial; distinct = distinct session lines.',
+        lean='CoapLite.Props.C08', domains=['BLK'], rule='Sessions against the real BlockHandler under the deterministic fake clock, full comparison of every outcome, reply dump, request payload and (hook) cached state: Block2 downloads of every body length 0..3*blocksize+1 for sizes 16/32/64 x client preference none/equal/larger, lengths {0,15,16,17,1023,1024,1025,5000(20000)} x budgets 38..1280 x preferences incl. mid-transfer reduction, budgets in a band of +-3 around overhead+{12,28,32,44}+2^j for 4 request shapes x 3 reply option sets; Block1 uploads at every size exponent x lengths around block multiples x duplicate patterns x abandoned prefixes; too-large requests; 8000 (60000) hostile request sequences of length 1..6 (option bloat to 1400 B, block numbers up to 65535, szx 0..7, malformed block bytes, all message types, budgets 0..5000, large replies, pre-set Block2); all interleavings of 2 transfers x 4 exchanges differing in one key component; cache lifetime at ttl-1/ttl/ttl+1/4*ttl with 0..25 (2000) intervening keys; keep-alive chains (duplicates / earlier blocks spaced just under the expiry); far jumps with announced Size1/Size2; finished transfers resumed at a later block with a grown reply; application response codes 2.01..5.03 in interleavings. Every session is non-trivial; distinct = distinct session lines.',
         explanation='chunk/tiling reassembly, served-block contents, caching and release proved over the handler core; tied by domain BLK',
     ),
     'C09': dict(
-        lean='CoapLite.Props.C09', domains=['BLK'], rule='Sessions against the real BlockHandler under the deterministic fake clock, full comparison of every outcome, reply dump, request payload and (hook) cached state: Block2 downloads of every body length 0..3*blocksize+1 for sizes 16/32/64 x client preference none/equal/larger, lengths {0,15,16,17,1023,1024,1025,5000(20000)} x budgets 38..1280 x preferences incl. mid-transfer reduction, budgets in a band of +-3 around overhead+{12,28,32,44}+2^j for 4 request shapes x 3 reply option sets; Block1 uploads at every size exponent x lengths around block multiples x duplicate patterns x abandoned prefixes; too-large requests; 8000 (60000) hostile request sequences of length 1..6 (option bloat to 1400 B, block numbers up to 65535, szx 0..7, malformed block bytes, all message types, budgets 0..5000, large replies, pre-set Block2); all interleavings of 2 transfers x 4 exchanges differing in one key component; cache lifetime at ttl-1/ttl/ttl+1/4*ttl with 0..25 (2000) intervening keys. Every session is non-trivial; distinct = distinct session lines.',
+        lean='CoapLite.Props.C09', domains=['BLK'], rule='Sessions against the real BlockHandler under the deterministic fake clock, full comparison of every outcome, reply dump, request payload and (hook) cached state: Block2 downloads of every body length 0..3*blocksize+1 for sizes 16/32/64 x client preference none/equal/larger, lengths {0,15,16,17,1023,1024,1025,5000(20000)} x budgets 38..1280 x preferences incl. mid-transfer reduction, budgets in a band of +-3 around overhead+{12,28,32,44}+2^j for 4 request shapes x 3 reply option sets; Block1 uploads at every size exponent x lengths around block multiples x duplicate patterns x abandoned prefixes; too-large requests; 8000 (60000) hostile request sequences of length 1..6 (option bloat to 1400 B, block numbers up to 65535, szx 0..7, malformed block bytes, all message types, budgets 0..5000, large replies, pre-set Block2); all interleavings of 2 transfers x 4 exchanges differing in one key component; cache lifetime at ttl-1/ttl/ttl+1/4*ttl with 0..25 (2000) intervening keys; keep-alive chains (duplicates / earlier blocks spaced just under the expiry); far jumps with announced Size1/Size2; finished transfers resumed at a later block with a grown reply; application response codes 2.01..5.03 in interleavings. Every session is non-trivial; distinct = distinct session lines.',
         explanation='upload step / in-order prefix with duplicates and stale buffers / final block proved over the handler core; K1 is a recorded known finding',
     ),
     'C10': dict(
-        lean='CoapLite.Props.C10', domains=['BLK'], rule='Sessions against the real BlockHandler under the deterministic fake clock, full comparison of every outcome, reply dump, request payload and (hook) cached state: Block2 downloads of every body length 0..3*blocksize+1 for sizes 16/32/64 x client preference none/equal/larger, lengths {0,15,16,17,1023,1024,1025,5000(20000)} x budgets 38..1280 x preferences incl. mid-transfer reduction, budgets in a band of +-3 around overhead+{12,28,32,44}+2^j for 4 request shapes x 3 reply option sets; Block1 uploads at every size exponent x lengths around block multiples x duplicate patterns x abandoned prefixes; too-large requests; 8000 (60000) hostile request sequences of length 1..6 (option bloat to 1400 B, block numbers up to 65535, szx 0..7, malformed block bytes, all message types, budgets 0..5000, large replies, pre-set Block2); all interleavings of 2 transfers x 4 exchanges differing in one key component; cache lifetime at ttl-1/ttl/ttl+1/4*ttl with 0..25 (2000) intervening keys. Every session is non-trivial; distinct = distinct session lines.',
+        lean='CoapLite.Props.C10', domains=['BLK'], rule='Sessions against the real BlockHandler under the deterministic fake clock, full comparison of every outcome, reply dump, request payload and (hook) cached state: Block2 downloads of every body length 0..3*blocksize+1 for sizes 16/32/64 x client preference none/equal/larger, lengths {0,15,16,17,1023,1024,1025,5000(20000)} x budgets 38..1280 x preferences incl. mid-transfer reduction, budgets in a band of +-3 around overhead+{12,28,32,44}+2^j for 4 request shapes x 3 reply option sets; Block1 uploads at every size exponent x lengths around block multiples x duplicate patterns x abandoned prefixes; too-large requests; 8000 (60000) hostile request sequences of length 1..6 (option bloat to 1400 B, block numbers up to 65535, szx 0..7, malformed block bytes, all message types, budgets 0..5000, large replies, pre-set Block2); all interleavings of 2 transfers x 4 exchanges differing in one key component; cache lifetime at ttl-1/ttl/ttl+1/4*ttl with 0..25 (2000) intervening keys; keep-alive chains (duplicates / earlier blocks spaced just under the expiry); far jumps with announced Size1/Size2; finished transfers resumed at a later block with a grown reply; application response codes 2.01..5.03 in interleavings. Every session is non-trivial; distinct = distinct session lines.',
         explanation='negotiated size bounds and wire-length-within-budget proved; blockOptionsMaxLength regenerated from source',
     ),
     'C11': dict(
-        lean='CoapLite.Props.C11', domains=['BLK'], rule='Sessions against the real BlockHandler under the deterministic fake clock, full comparison of every outcome, reply dump, request payload and (hook) cached state: Block2 downloads of every body length 0..3*blocksize+1 for sizes 16/32/64 x client preference none/equal/larger, lengths {0,15,16,17,1023,1024,1025,5000(20000)} x budgets 38..1280 x preferences incl. mid-transfer reduction, budgets in a band of +-3 around overhead+{12,28,32,44}+2^j for 4 request shapes x 3 reply option sets; Block1 uploads at every size exponent x lengths around block multiples x duplicate patterns x abandoned prefixes; too-large requests; 8000 (60000) hostile request sequences of length 1..6 (option bloat to 1400 B, block numbers up to 65535, szx 0..7, malformed block bytes, all message types, budgets 0..5000, large replies, pre-set Block2); all interleavings of 2 transfers x 4 exchanges differing in one key component; cache lifetime at ttl-1/ttl/ttl+1/4*ttl with 0..25 (2000) intervening keys. Every session is non-trivial; distinct = distinct session lines.',
+        lean='CoapLite.Props.C11', domains=['BLK'], rule='Sessions against the real BlockHandler under the deterministic fake clock, full comparison of every outcome, reply dump, request payload and (hook) cached state: Block2 downloads of every body length 0..3*blocksize+1 for sizes 16/32/64 x client preference none/equal/larger, lengths {0,15,16,17,1023,1024,1025,5000(20000)} x budgets 38..1280 x preferences incl. mid-transfer reduction, budgets in a band of +-3 around overhead+{12,28,32,44}+2^j for 4 request shapes x 3 reply option sets; Block1 uploads at every size exponent x lengths around block multiples x duplicate patterns x abandoned prefixes; too-large requests; 8000 (60000) hostile request sequences of length 1..6 (option bloat to 1400 B, block numbers up to 65535, szx 0..7, malformed block bytes, all message types, budgets 0..5000, large replies, pre-set Block2); all interleavings of 2 transfers x 4 exchanges differing in one key component; cache lifetime at ttl-1/ttl/ttl+1/4*ttl with 0..25 (2000) intervening keys; keep-alive chains (duplicates / earlier blocks spaced just under the expiry); far jumps with announced Size1/Size2; finished transfers resumed at a later block with a grown reply; application response codes 2.01..5.03 in interleavings. Every session is non-trivial; distinct = distinct session lines.',
         explanation='never-panic, renderable errors, buffer growth bound for all requests/states/budgets',
     ),
     'C12': dict(
-        lean='CoapLite.Props.C12', domains=['BLK'], rule='Sessions against the real BlockHandler under the deterministic fake clock, full comparison of every outcome, reply dump, request payload and (hook) cached state: Block2 downloads of every body length 0..3*blocksize+1 for sizes 16/32/64 x client preference none/equal/larger, lengths {0,15,16,17,1023,1024,1025,5000(20000)} x budgets 38..1280 x preferences incl. mid-transfer reduction, budgets in a band of +-3 around overhead+{12,28,32,44}+2^j for 4 request shapes x 3 reply option sets; Block1 uploads at every size exponent x lengths around block multiples x duplicate patterns x abandoned prefixes; too-large requests; 8000 (60000) hostile request sequences of length 1..6 (option bloat to 1400 B, block numbers up to 65535, szx 0..7, malformed block bytes, all message types, budgets 0..5000, large replies, pre-set Block2); all interleavings of 2 transfers x 4 exchanges differing in one key component; cache lifetime at ttl-1/ttl/ttl+1/4*ttl with 0..25 (2000) intervening keys. Every session is non-trivial; distinct = distinct session lines.',
+        lean='CoapLite.Props.C12', domains=['BLK'], rule='Sessions against the real BlockHandler under the deterministic fake clock, full comparison of every outcome, reply dump, request payload and (hook) cached state: Block2 downloads of every body length 0..3*blocksize+1 for sizes 16/32/64 x client preference none/equal/larger, lengths {0,15,16,17,1023,1024,1025,5000(20000)} x budgets 38..1280 x preferences incl. mid-transfer reduction, budgets in a band of +-3 around overhead+{12,28,32,44}+2^j for 4 request shapes x 3 reply option sets; Block1 uploads at every size exponent x lengths around block multiples x duplicate patterns x abandoned prefixes; too-large requests; 8000 (60000) hostile request sequences of length 1..6 (option bloat to 1400 B, block numbers up to 65535, szx 0..7, malformed block bytes, all message types, budgets 0..5000, large replies, pre-set Block2); all interleavings of 2 transfers x 4 exchanges differing in one key component; cache lifetime at ttl-1/ttl/ttl+1/4*ttl with 0..25 (2000) intervening keys; keep-alive chains (duplicates / earlier blocks spaced just under the expiry); far jumps with announced Size1/Size2; finished transfers resumed at a later block with a grown reply; application response codes 2.01..5.03 in interleavings. Every session is non-trivial; distinct = distinct session lines.',
         explanation='non-interference for every interleaving and monotone timestamping by simulation; reply ids',
     ),
     'C20': dict(
-        lean='CoapLite.Props.C20', domains=['BLK'], rule='Sessions against the real BlockHandler under the deterministic fake clock, full comparison of every outcome, reply dump, request payload and (hook) cached state: Block2 downloads of every body length 0..3*blocksize+1 for sizes 16/32/64 x client preference none/equal/larger, lengths {0,15,16,17,1023,1024,1025,5000(20000)} x budgets 38..1280 x preferences incl. mid-transfer reduction, budgets in a band of +-3 around overhead+{12,28,32,44}+2^j for 4 request shapes x 3 reply option sets; Block1 uploads at every size exponent x lengths around block multiples x duplicate patterns x abandoned prefixes; too-large requests; 8000 (60000) hostile request sequences of length 1..6 (option bloat to 1400 B, block numbers up to 65535, szx 0..7, malformed block bytes, all message types, budgets 0..5000, large replies, pre-set Block2); all interleavings of 2 transfers x 4 exchanges differing in one key component; cache lifetime at ttl-1/ttl/ttl+1/4*ttl with 0..25 (2000) intervening keys. Every session is non-trivial; distinct = distinct session lines. Reclamation is additionally observed with a counting allocator (1/5/50 abandoned 10 KiB uploads).',
+        lean='CoapLite.Props.C20', domains=['BLK'], rule='Sessions against the real BlockHandler under the deterministic fake clock, full comparison of every outcome, reply dump, request payload and (hook) cached state: Block2 downloads of every body length 0..3*blocksize+1 for sizes 16/32/64 x client preference none/equal/larger, lengths {0,15,16,17,1023,1024,1025,5000(20000)} x budgets 38..1280 x preferences incl. mid-transfer reduction, budgets in a band of +-3 around overhead+{12,28,32,44}+2^j for 4 request shapes x 3 reply option sets; Block1 uploads at every size exponent x lengths around block multiples x duplicate patterns x abandoned prefixes; too-large requests; 8000 (60000) hostile request sequences of length 1..6 (option bloat to 1400 B, block numbers up to 65535, szx 0..7, malformed block bytes, all message types, budgets 0..5000, large replies, pre-set Block2); all interleavings of 2 transfers x 4 exchanges differing in one key component; cache lifetime at ttl-1/ttl/ttl+1/4*ttl with 0..25 (2000) intervening keys; keep-alive chains (duplicates / earlier blocks spaced just under the expiry); far jumps with announced Size1/Size2; finished transfers resumed at a later block with a grown reply; application response codes 2.01..5.03 in interleavings. Every session is non-trivial; distinct = distinct session lines. Reclamation is additionally observed with a counting allocator (1/5/50 abandoned 10 KiB uploads).',
         explanation='LRU/expiry cache invariants, retention, expiry and removal-on-next-use proved; heap reclamation observed only',
         assumptions=['time is a monotone explicit parameter; the real code reads Instant::now() up to three times within one call (identical under the fake clock)', 'heap reclamation is observed through a counting allocator, not proved'],
     ),
@@ -87,7 +87,7 @@ PROPS = {
     ),
     'C18': dict(
         lean='CoapLite.Props.C18', domains=['LF'], line_filter=r'LF write',
-        rule='for a third of the random documents and the whole 0..4 x 0..4 grid: every sink-call index x {fail once, fail persistently} x newline on/off, sink overriding write_str and write_char, complete enumeration per document. Every fault injection is a distinct non-trivial case.',
+        rule='for a third of the random documents and the whole 0..4 x 0..4 grid: every sink-call index x {fail once, fail persistently} x newline on/off, sink overriding write_str and write_char, complete enumeration per document; the same with set_add_newlines switched again between links (5 switch patterns). Every fault injection is a distinct non-trivial case.',
         explanation='for every fault schedule: error reported iff a call fails, sink is a prefix, nothing after the failure',
     ),
     'C13': dict(
